@@ -716,6 +716,13 @@ fn run_op(ctx: &mut Ctx, op: &str) -> String {
             let r3 = run_op(ctx, "b");
             format!("{}|{}|{}", r1, r2, r3)
         }
+        // parse, recompute (called directly), the bytes: as one operation (for the purity pairs of C17)
+        "PR" => {
+            let r1 = run_op(ctx, &format!("P,{}", f[1]));
+            let r2 = run_op(ctx, "rc");
+            let r3 = run_op(ctx, "b");
+            format!("{}|{}|{}", r1, r2, r3)
+        }
         "K" => {
             let p = unhex(f[1]);
             let off: usize = f[2].parse().unwrap();
